@@ -134,6 +134,13 @@ def gen_stmts(d, lists, scal, p_fold=12):
             else:
                 out.append(["expr", ["bin", "<=", ["sz", l["name"]], L(hi)]])
                 out.append(["expr", ["bin", "==", ["sz", l["name"]], ["f", d.choice(scal)]]])
+            if d.chance(25):
+                # size constraints under a condition: they apply only when the condition holds, the other sizes stay possible
+                cond = ["bin", d.choice(["<", ">=", "=="]), ["f", d.choice(scal)], L(d.randint(0, 4))]
+                lo2 = d.randint(0, 2)
+                then_ = [["expr", ["in", ["sz", l["name"]], [["rng", L(lo2), L(d.randint(lo2, 3))]]]]]
+                else_ = [["expr", ["bin", d.choice([">=", ">", "!="]), ["sz", l["name"]], L(d.randint(0, 3))]]] if d.chance(70) else None
+                out.append(["if", [[cond, then_]], else_] if d.chance(75) else ["implies", cond, then_])
     for _ in range(d.randint(1, 4)):
         l = d.choice(lists)
         n = l["name"]
